@@ -121,13 +121,34 @@ def work(chunk):
         impl = [impl_answer(c['op'], c['text'], c['clock'], c.get('sites')) for c in chunk]
     t1 = time.time()
     model = model_answers(chunk)
+    # second pass: the Lean predicates evaluated on the texts themselves —
+    #  wf : a canonical generated input is `render s` of a well-formed abstract solution (hypothesis
+    #       of the theorems); wft : the IMPLEMENTATION's output satisfies Spec.wellFormedText (their
+    #       conclusion `blocks_closed_*`)
+    extra, owner = [], []
+    for k, (c, a) in enumerate(zip(chunk, impl)):
+        if c['layout'] == 'canonical' and c['op'] == 'est':
+            extra.append({'op': 'wf', 'text': c['text'], 'clock': c['clock']})
+            owner.append((k, 'wf'))
+        if c['op'] in EDITORS and a.startswith('OK') and not c['layout'].startswith('malformed') \
+                and c['layout'] != 'chained':
+            extra.append({'op': 'wft', 'text': bytes.fromhex(a[3:]).decode('latin-1'), 'clock': c['clock']})
+            owner.append((k, 'wft'))
+    preds = {}
+    if extra:
+        for (k, what), ans in zip(owner, model_answers(extra)):
+            preds.setdefault(k, {})[what] = ans
     t2 = time.time()
     res = []
-    for c, a, b in zip(chunk, impl, model):
-        kind = a.split(' ')[0] if a.startswith('ERR') is False else a
+    for k, (c, a, b) in enumerate(zip(chunk, impl, model)):
         d = None if a == b else describe_diff(c['op'], a, b)
+        pr = preds.get(k, {})
+        if d is None and pr.get('wf', 'OK b:1') != 'OK b:1':
+            d = 'Spec.wfText rejects this canonical generated file (%s)' % pr['wf']
+        if d is None and pr.get('wft', 'OK b:1') != 'OK b:1':
+            d = 'Spec.wellFormedText rejects the implementation output (%s)' % pr['wft']
         res.append({'id': c['id'], 'op': c['op'], 'outcome': 'OK' if a.startswith('OK') else a, 'diff': d,
-                    'nontrivial': a.startswith('OK') and len(a) > 40})
+                    'nontrivial': a.startswith('OK') and len(a) > 40, 'preds': pr})
     return res, t1 - t0, t2 - t1
 
 
@@ -167,7 +188,8 @@ def gen_cases(rng, nfiles, stats):
     cases = []
 
     def add(op, text, clock, sites, label, layout):
-        cases.append({'id': len(cases), 'op': op, 'text': text, 'clock': clock, 'sites': sites, 'label': label + ' ' + layout})
+        cases.append({'id': len(cases), 'op': op, 'text': text, 'clock': clock, 'sites': sites, 'label': label + ' ' + layout,
+                      'layout': layout})
         stats.add('op:' + op)
         stats.add('layout:' + layout)
         if op in EDITORS:
@@ -179,9 +201,10 @@ def gen_cases(rng, nfiles, stats):
         nsites = rng.randint(1, 4) if small else rng.randint(5, 12)
         s = W.random_sol(rng, nsites=nsites, vel=(fi % 2 == 0), tri='LU'[(fi // 2) % 2], aimed=W.AIMED[fi % len(W.AIMED)])
         label = 'file%d(sites=%d,solns=%d,params=%d,vel=%s,tri=%s,%s)' % (fi, len(s.sites), len(s.solns), s.nparam(), s.vel, s.tri, s.mode)
-        canonical = fi % 4 == 0
+        canonical = fi % 5 == 0
         text = W.render_input(s, None if canonical else rng)
-        layout = 'canonical' if canonical else 'interleaved'
+        # 'canonical' = exactly the layout Spec.render writes (the domain of the Lean theorems)
+        layout = ('canonical' if s.comments else 'canonical-nocommentblock') if canonical else 'interleaved'
         stats.add('files')
         stats.add('nsites:%02d' % len(s.sites))
         stats.add('nparam:%s' % ('<=12' if s.nparam() <= 12 else '<=72' if s.nparam() <= 72 else '>72'))
@@ -250,6 +273,8 @@ def main():
         for r in res:
             c = by_id[r['id']]
             stats.add('outcome:%s:%s' % (r['op'], r['outcome'].replace('ERR ', 'raises ')))
+            for what, ans in r.get('preds', {}).items():
+                stats.add('lean-predicate:%s:%s' % (what, ans))
             if r['nontrivial']:
                 distinct.add((r['op'], hashlib.sha1(c['text'].encode('latin-1')).hexdigest(), tuple(c['sites'] or ()), str(c['clock'])))
             if r['diff'] is not None:
